@@ -18,7 +18,7 @@ import time
 from . import env
 
 
-def run_shards(prop, descs, timeout, extra_env=None):
+def run_shards(prop, descs, timeout, extra_env=None, optimize_odd=False):
     work = tempfile.mkdtemp(prefix="vf-")
     outs = [None] * len(descs)
     problems = []
@@ -28,7 +28,9 @@ def run_shards(prop, descs, timeout, extra_env=None):
         with open(d, "w", encoding="utf-8") as fh:
             json.dump(descs[i], fh)
         try:
-            p = subprocess.run([env.PYTHON, "-m", "vf.shardmain", prop, d, o], cwd=env.VERIF,
+            # environment variation: every second shard runs under `python -O` (assert statements compiled out)
+            flags = ["-O"] if (optimize_odd and i % 2 == 1) else []
+            p = subprocess.run([env.PYTHON] + flags + ["-m", "vf.shardmain", prop, d, o], cwd=env.VERIF,
                                env=env.child_env(extra_env), timeout=timeout,
                                stdout=subprocess.PIPE, stderr=subprocess.PIPE)
         except subprocess.TimeoutExpired:
@@ -72,13 +74,16 @@ def main(argv=None):
         with open(args.replay, encoding="utf-8") as fh:
             rp = json.load(fh)
         descs = [{"replay": rp["payload"], "tier": tier, "seed": rp.get("seed", seed)}]
+        if rp.get("python_O"):
+            descs = [{"noop": True}] + descs      # the witness was observed under `python -O`: replay it in an odd shard
     else:
         descs = mod.plan(tier, seed)
         for d in descs:
             d.setdefault("tier", tier)
             d.setdefault("seed", seed)
     timeout = getattr(mod, "TIMEOUT", {}).get(tier, 1500 if tier == "quick" else 6 * 3600)
-    outs, problems = run_shards(prop, descs, timeout)
+    optimize_odd = getattr(mod, "OPTIMIZE_ODD_SHARDS", True) and (not args.replay or len(descs) == 2)
+    outs, problems = run_shards(prop, descs, timeout, optimize_odd=optimize_odd)
 
     from .acc import Acc
     from . import findings
@@ -143,7 +148,7 @@ def main(argv=None):
         with open(path, "w", encoding="utf-8") as fh:
             json.dump({"property": prop, "tier": tier, "seed": seed, "clause": v["clause"], "where": v["where"],
                        "tags": v["tags"], "symptom": v["symptom"], "detail": v["detail"],
-                       "payload": v["payload"]}, fh, indent=1, default=str)
+                       "python_O": v.get("python_O", False), "payload": v["payload"]}, fh, indent=1, default=str)
         if len(lines) < 25:
             lines.append(f"VIOLATION property={prop} replay={path}")
             lines.append(f"  clause={v['clause']} where={v['where']} tags={','.join(v['tags']) or '-'} "
@@ -173,7 +178,8 @@ def main(argv=None):
            "reach_anchors": reach_sel,
            "reach_repo_functions_activated": len(reach),
            "known_findings_observed": known, "known_failures": n_known, "unlisted_failures": n_viol,
-           "shards": len(descs), "inconclusive": inconclusive}
+           "shards": len(descs), "shards_under_python_O": (len(descs) // 2 if optimize_odd else 0),
+           "inconclusive": inconclusive}
     if hasattr(mod, "evidence_extra"):
         try:
             cov.update(mod.evidence_extra(acc, tier, seed))
